@@ -67,6 +67,8 @@ impl TaskManager {
 				loop {
 					// Wait for notification
 					notify.notified().await;
+					#[cfg(surrealkv_verif)]
+					crate::verif::gate("task.flush.woken", &[]);
 
 					if stop_flag.load(Ordering::SeqCst) {
 						break;
@@ -132,6 +134,8 @@ impl TaskManager {
 				loop {
 					// Wait for notification
 					notify.notified().await;
+					#[cfg(surrealkv_verif)]
+					crate::verif::gate("task.level.woken", &[]);
 
 					if stop_flag.load(Ordering::SeqCst) {
 						break;
